@@ -37,7 +37,7 @@ def quantize1 : Rounding → Rat → Rat
 /-- the exception classes the translated fragments can raise; message texts are not modelled -/
 inductive Exc
   | malformed | mandatory | rhMalformed | rhMismatch          -- the library's own hierarchy (per version)
-  | keyError | typeError | valueError | indexError | assertionError | other
+  | keyError | typeError | valueError | indexError | assertionError | nameError | zeroDivision | other
   deriving DecidableEq, Repr, Inhabited
 
 /-- the model's view of an exception: its class inside the CVSSError hierarchy, or "foreign" -/
@@ -81,6 +81,78 @@ def tryExcept {α : Type} (x : M α) (cls : Exc) (h : M α) : M α :=
   match x with
   | .error e => if e = cls then h else .error e
   | .ok v => .ok v
+
+/-- reading a local variable that some path leaves unassigned: NameError (UnboundLocalError) -/
+def bound {α : Type} : Option α → M α
+  | some x => .ok x
+  | none => .error .nameError
+
+/-- `s[i]` on a string: IndexError past the end -/
+def charAt (s : Str) (i : Nat) : M Str :=
+  match s[i]? with
+  | some c => .ok [c]
+  | none => .error .indexError
+
+/-- `int(s)` on the strings the library converts (runs of ASCII digits): ValueError otherwise -/
+def int (s : Str) : M Int :=
+  if s ≠ [] ∧ s.all (fun c => '0' ≤ c ∧ c ≤ '9') then
+    .ok (Int.ofNat (s.foldl (fun n c => n * 10 + (c.toNat - 48)) 0))
+  else .error .valueError
+
+/-- `d[k]` where the key may be `None` (never a key of these tables) -/
+def getitemO {β : Type} (k : Option Str) (d : List (Str × β)) : M β :=
+  match k with
+  | some k => getitem k d
+  | none => .error .keyError
+
+/-- `d[i]` on a dict with small non-negative integer keys -/
+def getitemN (i : Int) (d : List (Nat × Nat)) : M Int :=
+  if i < 0 then .error .keyError
+  else match lookup i.toNat d with
+    | some v => .ok (Int.ofNat v)
+    | none => .error .keyError
+
+/-- `d[i][j]` on a dict of dicts with small non-negative integer keys -/
+def getitemNN (i j : Int) (d : List ((Nat × Nat) × Nat)) : M Int :=
+  if i < 0 ∨ j < 0 then .error .keyError
+  else match lookup (i.toNat, j.toNat) d with
+    | some v => .ok (Int.ofNat v)
+    | none => .error .keyError
+
+/-! binary floats that may be NaN: `Option Rat`, `none` = nan; finite values are modelled exactly
+    (C02 `roundHalfUp_epsilon_robust` shows the perturbation of real float arithmetic cannot change a score) -/
+
+def fadd : Option Rat → Option Rat → Option Rat
+  | some a, some b => some (a + b)
+  | _, _ => none
+def fsub : Option Rat → Option Rat → Option Rat
+  | some a, some b => some (a - b)
+  | _, _ => none
+def fmul : Option Rat → Option Rat → Option Rat
+  | some a, some b => some (a * b)
+  | _, _ => none
+/-- `a / b`: ZeroDivisionError for a zero divisor (checked before NaN propagates) -/
+def fdiv : Option Rat → Option Rat → M (Option Rat)
+  | _, some 0 => .error .zeroDivision
+  | some a, some b => .ok (some (a / b))
+  | _, _ => .ok none
+def div (a b : Rat) : M Rat := if b = 0 then .error .zeroDivision else .ok (a / b)
+/-- comparisons involving NaN are false -/
+def flt : Option Rat → Option Rat → Bool
+  | some a, some b => decide (a < b)
+  | _, _ => false
+def fle : Option Rat → Option Rat → Bool
+  | some a, some b => decide (a ≤ b)
+  | _, _ => false
+def fgt (a b : Option Rat) : Bool := flt b a
+def fge (a b : Option Rat) : Bool := fle b a
+/-- builtin `max(a, b)` / `min(a, b)`: the first argument unless the second compares greater / smaller -/
+def fmax (a b : Option Rat) : Option Rat := if fgt b a then b else a
+def fmin (a b : Option Rat) : Option Rat := if flt b a then b else a
+/-- `Decimal(x).quantize(...)` needs a finite `x` (InvalidOperation on NaN) -/
+def finite : Option Rat → M Rat
+  | some x => .ok x
+  | none => .error .other
 
 /-- `s.endswith(p)` -/
 def endsWith (p s : Str) : Bool := p.reverse.isPrefixOf s.reverse
